@@ -115,6 +115,33 @@ impl Session {
         self.i += 1;
     }
 
+    /// `now()` constructors: the system clock is read before and after the call (through std, not
+    /// through astrolabe); the specification requires the result to lie between the two readings.
+    pub fn step_now(&mut self, op: &str, dst: &'static str) {
+        use std::time::{SystemTime, UNIX_EPOCH};
+        let read = || {
+            let d = SystemTime::now().duration_since(UNIX_EPOCH).unwrap();
+            let secs = d.as_secs() as i64;
+            json!([secs.div_euclid(86_400) + 719_162, secs.rem_euclid(86_400), d.subsec_nanos()])
+        };
+        let t0 = read();
+        let r = match guarded(|| match op {
+            "date_now" => Val::Date(astrolabe::Date::now()),
+            "time_now" => Val::Time(astrolabe::Time::now()),
+            _ => Val::Dt(astrolabe::DateTime::now()),
+        }) {
+            Outcome::Ok(v) => {
+                self.regs.insert(dst, v);
+                v.proj()
+            }
+            Outcome::Panic(m) => json!({"k": "panic", "msg": chars(&m)}),
+        };
+        let t1 = read();
+        self.vals.remove(dst);
+        self.out.emit(&json!({"i": self.i, "op": op, "a": dst, "b": dst, "dst": dst, "t0": t0, "t1": t1, "res": r}));
+        self.i += 1;
+    }
+
     // ------------------------------------------------------------ value generators
     pub fn gen_dn(&mut self) -> i64 {
         const SPECIAL: [i64; 22] = [
@@ -293,6 +320,24 @@ fn scen_c03(s: &mut Session, n: u64) {
         s.step("dt_ts", "C", "C", None, json!({}));
         s.step("date_from_ts", "A", "A", Some("D"), json!({"ts": ts}));
         s.step("date_ts", "D", "D", None, json!({}));
+        // conversions between the types, copies, defaults
+        s.step("date_from_dt", "A", "A", Some("D"), json!({}));
+        s.step("dt_from_date", "D", "D", Some("C"), json!({}));
+        s.step("dt_cmp", "C", "A", None, json!({}));
+        s.step("dt_copy", "B", "B", Some("C"), json!({}));
+        s.step("dt_cmp", "C", "B", None, json!({}));
+        if s.rng.chance(1, 40) {
+            s.step_now("dt_now", "C");
+            s.step("dt_ts", "C", "C", None, json!({}));
+            s.step_now("date_now", "D");
+            s.step_now("time_now", "T");
+        }
+        if s.rng.chance(1, 8) {
+            s.step("dt_default", "A", "A", Some("C"), json!({}));
+            s.step("date_default", "A", "A", Some("D"), json!({}));
+            s.step("dt_cmp", "C", "A", None, json!({}));
+        }
+        s.step("date_copy", "D", "D", Some("D"), json!({}));
         let e = s.date_val();
         s.init("E", e);
         s.step("date_cmp", "D", "E", None, json!({}));
@@ -339,6 +384,7 @@ fn scen_c04(s: &mut Session, n: u64) {
                     if r["k"] == "ok" {
                         cur = r;
                     }
+                    s.step("dt_copy", "A", "A", Some("A"), json!({}));
                 }
                 8 => {
                     let cnt = if s.rng.chance(1, 3) {
@@ -452,7 +498,26 @@ fn scen_c08(s: &mut Session, n: u64) {
                 10 => {
                     let d = s.dt_val(true);
                     s.init("A", d);
-                    s.step("time_from_dt", "A", "A", Some("T"), json!({}));
+                    match s.rng.below(4) {
+                        0 => {
+                            // Time -> DateTime -> Time, and set_time
+                            s.step("dt_from_time", "T", "T", Some("B"), json!({}));
+                            s.step("time_from_dt", "B", "B", Some("T"), json!({}));
+                        }
+                        1 => {
+                            s.step("dt_set_time", "A", "T", Some("A"), json!({}));
+                            s.step("time_from_dt", "A", "A", Some("T"), json!({}));
+                        }
+                        2 => {
+                            s.step("time_copy", "T", "T", Some("T"), json!({}));
+                            if s.rng.chance(1, 4) {
+                                s.step("time_default", "T", "T", Some("T"), json!({}));
+                            }
+                        }
+                        _ => {
+                            s.step("time_from_dt", "A", "A", Some("T"), json!({}));
+                        }
+                    }
                 }
                 _ => {
                     let which = s.rng.below(3);
